@@ -158,6 +158,10 @@ def honest(sc, label, chunk=0, script="A"):
 
 
 def make_cases(ctx):
+    for ver in ((3, 3), (3, 4)):
+        for mode in ("rb", "wb", "rwb"):
+            yield "makefile-%d-%s" % (ver[1], mode), dict(
+                makefile=True, ver=ver, mode=mode)
     for ending in ("abrupt", "orderly"):
         for opt in ("default", "strict", "ignore"):
             yield "http-%s-%s" % (ending, opt), dict(http=[ending, opt])
@@ -536,6 +540,9 @@ def run_alertpipe(ctx, cid, P):
                                              conn.session.valid()):
                 ctx.violation(dict(key, clause="resumable_after_fatal_alert"),
                               W, "")
+            # surfacing the peer's alert ends the connection like any other
+            # fatal alert: shut down, socket closed
+            post_state(ctx, key, W, side, conn, sock, p.link)
         elif idx == 0 and side == "client":
             ctx.violation(dict(key, clause="pending_alert_not_surfaced",
                                got=cls), W,
@@ -922,7 +929,93 @@ def run_http(ctx, cid, P):
                                        type(exc).__name__ if exc else "ok"))
 
 
+def run_makefile(ctx, cid, P):
+    """file objects from makefile() share the connection: closing one of
+    them is not closing the connection (which still reads and writes), and
+    closing the connection last is an orderly close"""
+    import threading
+    from tlslite import TLSConnection
+    from vt import creds
+    from vt.pair import ver_settings
+    ver, mode = tuple(P["ver"]), P["mode"]
+    a, b = socket.socketpair()
+    a.settimeout(30)
+    b.settimeout(30)
+    res = {}
+
+    def server():
+        try:
+            conn = TLSConnection(b)
+            chain, key_ = creds.server("rsa")
+            conn.handshakeServer(certChain=chain, privateKey=key_,
+                                 settings=ver_settings(ver))
+            got = b""
+            while len(got) < 14:
+                r = conn.read(max=64, min=1)
+                if not r:
+                    break
+                got += r
+            res["got"] = got
+            conn.write(b"reply-from-server")
+            res["eof"] = conn.read(max=10, min=1)
+            conn.close()
+            res["server"] = "ok"
+        except Exception as e:   # noqa
+            res["server"] = repr(e)
+    t = threading.Thread(target=server)
+    t.daemon = True
+    t.start()
+    exc = None
+    reply = None
+    c = TLSConnection(a)
+    try:
+        c.handshakeClientCert(settings=ver_settings(ver))
+        f = c.makefile(mode)
+        if "w" in mode:
+            f.write(b"via-file-")
+            f.flush()
+        f.close()
+        # the connection itself is still there
+        c.write(b"after" if "w" in mode else b"via-file-after")
+        reply = b""
+        while len(reply) < 17:
+            r = c.read(max=64, min=1)
+            if not r:
+                break
+            reply += r
+        c.close()
+    except Exception as e:   # noqa
+        exc = e
+    t.join(30)
+    for x in (a, b):
+        try:
+            x.close()
+        except Exception:   # noqa
+            pass
+    ctx.ev()
+    ctx.count("makefile_runs")
+    key = {"site": "makefile", "mode": mode,
+           "fam": "tls13" if ver == (3, 4) else "le12"}
+    W = {"case": cid, "client_exc": repr(exc), "reply": reply,
+         "server": dict((k, repr(v)) for k, v in res.items())}
+    if exc is not None or reply != b"reply-from-server" or \
+            res.get("got") != b"via-file-after" or res.get("server") != "ok" \
+            or res.get("eof") != b"":
+        ctx.violation(dict(key, clause="file_object_close_closed_connection"
+                           if exc is not None or not reply else
+                           "orderly_close_reported_as_failure"), W,
+                      "after closing a makefile(%r) object: client %r, "
+                      "reply %r, server %r" % (mode, exc, reply, res))
+    else:
+        ctx.count("makefile_ok")
+    ctx.cell("cell", "makefile|%s|%s|%s" % (key["fam"], mode,
+                                           "ok" if exc is None else
+                                           type(exc).__name__))
+
+
 def run_case(ctx, cid, P):
+    if "makefile" in P:
+        return run_makefile(ctx, cid, P)
     if "http" in P:
         return run_http(ctx, cid, P)
     if P.get("ctl"):
@@ -994,6 +1087,8 @@ def finalize(m, tier):
     if c.get("http_runs", 0) and c.get("http_truncation_reported", 0) < 2:
         out.append("integration HTTPS client: truncation never observed "
                    "as reported")
+    if c.get("makefile_ok", 0) < 4:
+        out.append("fewer than 4 makefile() cases ended in order")
     if c.get("reused_objects", 0) < 9:
         out.append("fewer than 9 second sessions on re-used connection "
                    "objects")
